@@ -78,7 +78,10 @@ def gen_case(rng, force_dir=None):
     pb_day = rng.randint(0, 6)
     pb_tod = rng.choice([0, 0, 0, 0, 10 * H, 6 * H, 18 * H + 30 * 60_000_000])
     pbound = day_us(pb_day, pb_tod)
+    aim = rng.random() if fwd else 1.0      # aimed leaf (see below): 'late start, little work' / 'start before the clock'
     r = rng.random()
+    if 0.07 <= aim < 0.12:
+        r = 0.9                              # the clock lies after the project start
     if r < 0.45:
         now = pbound - rng.randint(1, 20) * DAY - rng.choice([0, 3 * H, 11 * H])
     elif r < 0.55:
@@ -137,6 +140,18 @@ def gen_case(rng, force_dir=None):
     for t in tasks:          # milestones are leaves (a milestone summary is outside the domain of C02/C07)
         if t['parent'] is not None:
             tasks[t['parent']]['milestone'] = False
+    if aim < 0.12:
+        # aimed: a leaf with a user-fixed start late in a day and so little work that the day fraction of its
+        # last reservation falls BEFORE the start's time of day (the end must still not precede the start)
+        leaves = [t for i, t in enumerate(tasks) if not any(u['parent'] == i for u in tasks)]
+        t = rng.choice(leaves)
+        if aim < 0.07:
+            t.update(start=now - (now % DAY) + rng.randint(0, 9) * DAY + rng.choice([14 * H, 15 * H + 20 * 60_000_000, 22 * H]),
+                     end=None, est=rng.choice([1, 2, 4, 8]), spent=rng.choice([None, None, 0]), milestone=False)
+        else:
+            # a user-fixed start some days BEFORE the clock with work left: nothing may be reserved before the clock's day
+            t.update(start=now - (now % DAY) - rng.randint(1, 9) * DAY + rng.choice([0, 0, 10 * H]),
+                     end=None, est=rng.choice([16, 64, 100, 200]), spent=rng.choice([None, 0, 8]), milestone=False)
     ext = []
     for j in range(rng.choice([0, 0, 0, 1, 1, 2])):
         e_end = day_us(rng.randint(-10, 12), rng.choice([0, 12 * H]))
@@ -166,14 +181,91 @@ def gen_case(rng, force_dir=None):
     if rng.random() < 0.1:
         supplied.append({'name': 'unused', 'cal': wk([0, 1, 2, 3, 4], ['i', 8])})
     edits = []
-    if supplied and rng.random() < 0.15:
+    if supplied and rng.random() < 0.22:
         for r in rng.sample(supplied, rng.randint(1, len(supplied))):
             edits.append([r['name'], gen_calendar(rng)])
-    return {'dir': 'fwd' if fwd else 'bwd', 'tasks': tasks, 'ext': ext, 'links': links, 'link_via_succ': rng.random() < 0.4,
+    # the first calculation and the observed one share the scheduler OBJECT in half of these cases (a scheduler
+    # that remembers capacities across calculations must not answer with the calendar as it was)
+    same_sched = bool(edits) and rng.random() < 0.5
+    return {'edit_same_scheduler': same_sched,'dir': 'fwd' if fwd else 'bwd', 'tasks': tasks, 'ext': ext, 'links': links, 'link_via_succ': rng.random() < 0.4,
             'edit_calendars': edits,
             'resources': supplied, 'balance': rng.random() < 0.7,
             'default_estimate': rng.choice([None, None, 0, 8, 64, 128]), 'pbound': pbound, 'now': now, 'now2': now2,
             'window_lo': WINDOW_LO, 'window_days': WINDOW_DAYS}
+
+
+def gen_aimed_case(rng, force_dir=None):
+    """Structured scenarios that the uniform generator reaches rarely (each found through a seeded change that
+    the random stream missed); amounts, calendars, clock, bound and root order stay random."""
+    c = gen_case(rng, force_dir)
+    fwd = c['dir'] == 'fwd'
+    kind = rng.choice(['sideways', 'sideways', 'staggered'] if fwd else ['sideways'])
+    c['aimed'] = kind
+    c['edit_calendars'] = []
+    c['edit_same_scheduler'] = False
+    c['ext'] = []
+    ids = rng.sample(list(range(1, 60)), 16)
+    est = lambda: rng.choice([8, 16, 32, 64, 64, 128, 200])
+    res = lambda: rng.choice(['a', 'a', 'b', None])
+    if kind == 'sideways':
+        # a chain G > P1 > ... > c (depth 2-4); a dependency declared on an ancestor A at least two levels above the
+        # deep task D of the chain (leaf or summary); another root X linked with D so that the pass can reach D
+        # through X before it reaches G (root order random).  Forward: Z -> A, D -> X.  Backward: A -> Z, X -> D.
+        depth = rng.randint(2, 4)
+        # build the three root blocks separately, then concatenate them in a random order
+        g = [T(ids[0], None, resource=res(), est=est())]
+        chain_pos = [0]
+        for k in range(depth):
+            par = chain_pos[-1]
+            g.append(T(ids[1 + k], par, resource=res(), est=est()))
+            chain_pos.append(len(g) - 1)
+            if rng.random() < 0.4:
+                g.append(T(ids[8 + k], par, resource=res(), est=est()))     # a sibling on that level
+        x = [T(ids[6], None, resource=res(), est=est())]
+        z = [T(ids[7], None, resource=res(), est=rng.choice([64, 200, 320]))]
+        order = [('G', g), ('X', x), ('Z', z)]
+        rng.shuffle(order)
+        if rng.random() < 0.5:
+            order.append(('F', [T(ids[15], None, resource=res(), est=est())]))
+            rng.shuffle(order)
+        out, base = [], {}
+        for name, blk in order:
+            base[name] = len(out)
+            for t in blk:
+                t = dict(t)
+                if t['parent'] is not None:
+                    t['parent'] += base[name]
+                out.append(t)
+        a_level = rng.randint(0, len(chain_pos) - 3) if len(chain_pos) >= 3 else 0
+        d_level = rng.randint(a_level + 2, len(chain_pos) - 1) if len(chain_pos) - 1 >= a_level + 2 else len(chain_pos) - 1
+        A = base['G'] + chain_pos[a_level]
+        D = base['G'] + chain_pos[d_level]
+        X, Z = base['X'], base['Z']
+        links = [[t_(Z), t_(A)], [t_(D), t_(X)]] if fwd else [[t_(A), t_(Z)], [t_(X), t_(D)]]
+        c['tasks'], c['links'] = out, links
+    else:
+        # several tasks of one resource released late (common predecessor on another resource or min_start) and each
+        # filling whole days, FOLLOWED in WBS order by unconstrained tasks of the same resource: the later ones must
+        # use the idle days before the release of the earlier ones
+        k = rng.randint(2, 4)
+        out = [T(ids[0], None, resource='b', est=rng.choice([64, 128, 192]))]
+        links = []
+        via_min = rng.random() < 0.3
+        for i in range(k):
+            t = T(ids[1 + i], None, resource='a', est=rng.choice([64, 64, 128]))
+            if via_min:
+                t['min_start'] = day_us(rng.randint(2, 6))
+            else:
+                links.append([t_(0), t_(1 + i)])
+            out.append(t)
+        for i in range(rng.randint(1, 2)):
+            out.append(T(ids[8 + i], None, resource='a', est=rng.choice([32, 64, 64, 128])))
+        c['tasks'], c['links'] = out, links
+        c['resources'] = [r for r in c['resources'] if r['name'] not in ('a', 'b')]
+        if rng.random() < 0.5:
+            c['resources'].append({'name': 'a', 'cal': wk([0, 1, 2, 3, 4], ['i', 8])})
+        c['balance'] = rng.random() < 0.85
+    return c
 
 
 OFF_UNITS = [7, 5.6, 11, 13, 3, 7.5, 6, 0.7, 8, 9.1]
@@ -387,7 +479,8 @@ def run_property(ctx, pid, fail_bits, mismatch_bits, dirs=('fwd', 'bwd'), extra=
     cases = [c for c in CORPUS if c['dir'] in dirs]
     n_corpus = len(cases)
     while len(cases) < n_corpus + n:
-        cases.append(gen_case(ctx.rng, None if len(dirs) == 2 else dirs[0]))
+        fd = None if len(dirs) == 2 else dirs[0]
+        cases.append(gen_aimed_case(ctx.rng, fd) if ctx.rng.random() < 0.1 else gen_case(ctx.rng, fd))
     if extra_cases:      # a property's own additional stream (callable: drawn after the common stream)
         cases += list(extra_cases(ctx) if callable(extra_cases) else extra_cases)
     n_off = 0
@@ -400,6 +493,9 @@ def run_property(ctx, pid, fail_bits, mismatch_bits, dirs=('fwd', 'bwd'), extra=
                 n_off -= 1
     outs, kept, codes = evaluate(ctx, cases)
     dist = {'offgrid_stream': sum(1 for c, _ in kept if c.get('offgrid')), 'calendar_edited_between_calcs': sum(1 for c, _ in kept if c.get('edit_calendars')),
+            'aimed_sideways': sum(1 for c, _ in kept if c.get('aimed') == 'sideways'),
+            'aimed_staggered_release': sum(1 for c, _ in kept if c.get('aimed') == 'staggered'),
+            'calendar_edited_same_scheduler_object': sum(1 for c, _ in kept if c.get('edit_calendars') and c.get('edit_same_scheduler')),
             'offgrid_discarded': len(cases) - len(kept), 'illformed_discarded': 0, 'returned': 0, 'runtime_error': 0, 'crash': 0}
     feats = {}
     distinct = set()
